@@ -85,7 +85,12 @@ func (x *Exec) libStatic(st *State, f *Frame, callee *ssa.Function, c *ssa.CallC
 		}
 		return Sc{reg.uf("lib"+mangle(name)[1:], SStr, ts...)}, true
 	case "strings.EqualFold":
-		return Sc{Eq(lowerOf(st, sc(0)), lowerOf(st, sc(1)))}, true
+		// Unicode simple case folding is coarser than comparing lower-cased strings ("ſ" folds to "s", "K" to "k"):
+		// equal lower-casings imply EqualFold, not the other way round
+		x.noteLib("strings.EqualFold: uninterpreted predicate implied by equal lower-casings (Unicode folding is coarser than ToLower)")
+		ef := reg.uf("lib_equalfold", SBool, sc(0), sc(1))
+		st.assume(Implies(Eq(lowerOf(st, sc(0)), lowerOf(st, sc(1))), ef))
+		return Sc{ef}, true
 	case "strings.Split":
 		x.noteLib("strings.Split: result has Count+1 >= 1 elements; sep absent ==> [s]; two elements ==> s == a + sep + b with sep in neither; the first element is sep-free and s starts with it + sep; elements otherwise unknown")
 		r := st.newRef("split")
